@@ -136,7 +136,12 @@ def binary (op : Op) (l r : Val) : Expect :=
   | .char a, .char b =>
     if op == .add then .value (.str (String.ofList [a, b])) else if isRel op then relOrd op a b else .error
   | .str s, .int n =>
-    if op == .mul then (if n.toInt < 0 then .error else .value (.str (repeatStr s n.toInt.toNat))) else .error
+    if op == .mul then
+      (if n.toInt < 0 then .error
+       -- results beyond 16 MiB are "more memory than the machine has": excluded by the property
+       else if s.utf8ByteSize * n.toInt.toNat > 16777216 then .any
+       else .value (.str (repeatStr s n.toInt.toNat)))
+    else .error
   | .int _, .str _ => if op == .mul then .any else .error
   -- arrays
   | .arr _ a, .arr _ b => if op == .add then .value (.arr 0 (a ++ b)) else .error
